@@ -26,20 +26,31 @@ TargetIx(t) == CHOOSE j \in 1..NT : Targets[j] = t
 Absent == [k |-> "absent", n |-> 0]
 Num(x) == [k |-> "num", n |-> x]        \* the number x (x >= 1)
 Fn(x)  == [k |-> "fn", n |-> x]         \* a script function returning x
+Undef  == [k |-> "undef", n |-> 0]      \* declared, value undefined (`var g;` on a context that has no g):
+                                        \* typeof and get cannot tell it from absent, reading the name can
 
 \* one context: globals (name -> abstract value), builtinsTouched (target -> 0 = pristine | value),
 \* limits, and the current-VM pointer (TRUE while an eval of this context is running)
 NewCtx(lim) == [globals |-> [nm \in Names |-> Absent],
                 touched |-> [j \in 1..NT |-> 0],
+                inv     |-> 0,             \* the marker on the inventory target of this history (family I), 0 = pristine
                 limits  |-> lim,
                 ptr     |-> FALSE,         \* the current-VM pointer designates a running evaluation
                 depth   |-> 0]             \* evaluations of this context in progress (an exposed callable may re-enter)
-Core(cs) == [globals |-> cs.globals, touched |-> cs.touched]    \* everything that may carry over
+Core(cs) == [globals |-> cs.globals, touched |-> cs.touched, inv |-> cs.inv]    \* everything that may carry over
 
-EvalKinds == {"defvar", "deffun", "assign", "delete",
+BaseEvalKinds == {"defvar", "deffun", "assign", "delete",
               "mut_objproto", "mut_math", "mut_arrproto", "mut_strctor", "mut_errproto",
               "throw", "loop", "recurse", "syntax", "ieval", "ieval_loop", "newfn", "read", "reenter"}
+\* re-declaration of a name that may exist already: a later program (or indirect eval text) that declares the
+\* name again creates it as undefined only if it does not exist; a declaration inside a Function body is local
+RedeclKinds == {"redecl", "redecl_f", "redecl_or", "redecl_dead", "redecl_ieval",
+                "redecl_newfn", "redecl_newfn_init", "redecl_throw"}
+\* family I: one object of the built-in object graph (the inventory target of the history, C12.tla) is modified
+InvKinds == {"inv_mut", "inv_del", "inv_throw", "inv_ieval", "inv_loop"}
+EvalKinds == BaseEvalKinds \cup RedeclKinds \cup InvKinds
 HostKinds == {"set", "get"}
+BaseKinds == BaseEvalKinds \cup HostKinds
 Kinds == EvalKinds \cup HostKinds
 MutKinds == {"mut_objproto", "mut_math", "mut_arrproto", "mut_strctor", "mut_errproto"}
 MutTarget(kd) == CASE kd = "mut_objproto" -> 1 [] kd = "mut_math" -> 2 [] kd = "mut_arrproto" -> 3
@@ -52,9 +63,11 @@ ETouch(j, x)  == [e |-> "touch", nm |-> "", av |-> Absent, tj |-> j, tv |-> x]
 \* inside the first one; when it ends the pointer designates the evaluation still in progress again
 EEnter == [e |-> "enter", nm |-> "", av |-> Absent, tj |-> 0, tv |-> 0]
 ELeave == [e |-> "leave", nm |-> "", av |-> Absent, tj |-> 0, tv |-> 0]
+EInv(x) == [e |-> "inv", nm |-> "", av |-> Absent, tj |-> 0, tv |-> x]
 ApplyEff(cs, ef) ==
   CASE ef.e = "glob"  -> [cs EXCEPT !.globals[ef.nm] = ef.av]
     [] ef.e = "touch" -> [cs EXCEPT !.touched[ef.tj] = ef.tv]
+    [] ef.e = "inv"   -> [cs EXCEPT !.inv = ef.tv]
     [] ef.e = "enter" -> [cs EXCEPT !.depth = cs.depth + 1, !.ptr = TRUE]
     [] ef.e = "leave" -> [cs EXCEPT !.depth = cs.depth - 1, !.ptr = (cs.depth - 1 > 0)]
 RECURSIVE ApplyEffs(_, _)
@@ -74,7 +87,10 @@ MemFirst(lim) == (lim.m \div FRAME + 2) * CALLCOST < POLL
 DontCare == -99
 \* results are small integers: n >= 1 the number n, 0 = None (undefined/null/absent), DontCare = not judged
 ReadG(cs) == IF cs.globals["g"].k = "num" THEN [os |-> {"value"}, r |-> cs.globals["g"].n]
+             ELSE IF cs.globals["g"].k = "undef" THEN [os |-> {"value"}, r |-> 0]     \* declared, undefined
              ELSE [os |-> {"jserror"}, r |-> DontCare]              \* ReferenceError: still a usable context
+\* a `var nm` declaration instantiated by a program: creates nm (undefined) unless it exists already
+Declare(nm, cs) == IF cs.globals[nm].k = "absent" THEN <<EGlob(nm, Undef)>> ELSE <<>>
 
 \* Prog: [parses, eff: sequence of effects committed in this order, exit: [os: acceptable outcome classes, r]]
 Prog(kd, x, cs) ==
@@ -99,6 +115,22 @@ Prog(kd, x, cs) ==
        \* re(x); ptr()  where re is an exposed callable that evaluates "var g = x" on the same context and ptr
        \* reports whether the current-VM pointer is set: it must be, the outer evaluation is still running
        [] kd = "reenter" -> P(<<EEnter, EGlob("g", Num(x)), ELeave>>, val(1))
+       \* ---- re-declaration: the existing value survives; only a missing name is created (as undefined)
+       [] kd = "redecl"      -> P(Declare("g", cs), val(DontCare))             \* var g;
+       [] kd = "redecl_f"    -> P(Declare("f", cs), val(DontCare))             \* var f;
+       [] kd = "redecl_or"   -> P(IF cs.globals["g"].k = "num" THEN <<>>       \* var g = g || x   (x >= 1 is truthy)
+                                  ELSE Declare("g", cs) \o <<EGlob("g", Num(x))>>, val(DontCare))
+       [] kd = "redecl_dead" -> P(Declare("g", cs), val(DontCare))             \* if (false) { var g = x }
+       [] kd = "redecl_ieval" -> P(Declare("g", cs), val(DontCare))            \* (1,eval)("var g;")
+       [] kd = "redecl_newfn" -> P(<<>>, val(0))                               \* new Function("var g; return g")()
+       [] kd = "redecl_newfn_init" -> P(<<>>, val(x))                          \* new Function("var g = x; return g")()
+       [] kd = "redecl_throw" -> P(Declare("g", cs), [os |-> {"jserror"}, r |-> DontCare])    \* var g; throw ...
+       \* ---- family I: <target>.<marker> = x on the inventory target of the history
+       [] kd = "inv_mut"   -> P(<<EInv(x)>>, val(DontCare))
+       [] kd = "inv_del"   -> P(<<EInv(0)>>, val(DontCare))                    \* delete <target>.<marker>
+       [] kd = "inv_throw" -> P(<<EInv(x)>>, [os |-> {"jserror"}, r |-> DontCare])
+       [] kd = "inv_ieval" -> P(<<EInv(x)>>, val(DontCare))                    \* through indirect eval
+       [] kd = "inv_loop"  -> P(<<EInv(x)>>, [os |-> {"timelimit"}, r |-> DontCare])
 
 \* atomic meaning of one event: post-state, acceptable outcome classes, result
 RunEvent(cs, kd, x) ==
@@ -111,11 +143,14 @@ RunEvent(cs, kd, x) ==
 \* the error-free twin of a kind: what a history without the error would have run instead
 TwinKind(kd) == CASE kd \in {"throw", "loop", "recurse"} -> "defvar"
                   [] kd = "ieval_loop" -> "ieval"
+                  [] kd = "redecl_throw" -> "redecl"
+                  [] kd \in {"inv_throw", "inv_loop"} -> "inv_mut"
                   [] OTHER -> kd
-IsErrorKind(kd) == kd \in {"throw", "loop", "recurse", "syntax", "ieval_loop"}
+IsErrorKind(kd) == kd \in {"throw", "loop", "recurse", "syntax", "ieval_loop", "redecl_throw", "inv_throw", "inv_loop"}
 
 \* the projection the driver probes (checks/c12_driver.py: probe()):
-\*  <<get g, typeof g, eval g, get f, typeof f, f(), zo, zm, za, zs, ze, pointer clear, unexpected global names>>
+\*  <<get g, typeof g, eval g, get f, typeof f, f(), zo, zm, za, zs, ze, pointer clear, unexpected global names,
+\*    g can be read (declared), f can be read, marker on the inventory target of the history>>
 FnMark == -4
 Observe(cs) ==
   LET gv == cs.globals["g"]  fv == cs.globals["f"]
@@ -127,12 +162,17 @@ Observe(cs) ==
        IF fv.k = "fn" THEN fv.n ELSE 0>>
      \o [j \in 1..NT |-> cs.touched[j]]
      \o <<IF cs.ptr THEN 0 ELSE 1, 0>>
-ObsLen == 8 + NT
+     \o <<IF gv.k = "absent" THEN 0 ELSE 1, IF fv.k = "absent" THEN 0 ELSE 1, cs.inv>>
+ObsLen == 11 + NT
+DeclIx(nm) == IF nm = "g" THEN 9 + NT ELSE 10 + NT
+InvIx == 11 + NT
 \* adopt an observed projection as the model state (total trace validation: resync and keep going)
 Adopt(cs, ob) ==
-  [cs EXCEPT !.globals = [nm \in Names |-> IF nm = "g" THEN (IF ob[3] >= 1 THEN Num(ob[3]) ELSE Absent)
-                                            ELSE (IF ob[6] >= 1 THEN Fn(ob[6]) ELSE Absent)],
+  [cs EXCEPT !.globals = [nm \in Names |-> IF nm = "g" /\ ob[3] >= 1 THEN Num(ob[3])
+                                            ELSE IF nm = "f" /\ ob[6] >= 1 THEN Fn(ob[6])
+                                            ELSE IF ob[DeclIx(nm)] = 1 THEN Undef ELSE Absent],
              !.touched = [j \in 1..NT |-> IF ob[6 + j] >= 0 THEN ob[6 + j] ELSE 0],
+             !.inv = IF ob[InvIx] >= 0 THEN ob[InvIx] ELSE 0,
              !.ptr = FALSE]
 
 \* ============================ Part 2: the state machine ===================================
@@ -228,6 +268,32 @@ EvalRead(c) == /\ pc.m = "idle"
                 /\ Begin(c, "read", 0)
 EvalReenter(c) == /\ pc.m = "idle"
                    /\ \E x \in Vals : Begin(c, "reenter", x)
+EvalRedecl(c) == /\ pc.m = "idle"
+                 /\ Begin(c, "redecl", 0)
+EvalRedeclF(c) == /\ pc.m = "idle"
+                  /\ Begin(c, "redecl_f", 0)
+EvalRedeclOr(c) == /\ pc.m = "idle"
+                   /\ \E x \in Vals : Begin(c, "redecl_or", x)
+EvalRedeclDead(c) == /\ pc.m = "idle"
+                     /\ \E x \in Vals : Begin(c, "redecl_dead", x)
+EvalRedeclIndirect(c) == /\ pc.m = "idle"
+                         /\ Begin(c, "redecl_ieval", 0)
+EvalRedeclNewFn(c) == /\ pc.m = "idle"
+                      /\ Begin(c, "redecl_newfn", 0)
+EvalRedeclNewFnInit(c) == /\ pc.m = "idle"
+                          /\ \E x \in Vals : Begin(c, "redecl_newfn_init", x)
+EvalRedeclThrow(c) == /\ pc.m = "idle"
+                      /\ Begin(c, "redecl_throw", 0)
+EvalInvMut(c) == /\ pc.m = "idle"
+                 /\ \E x \in Vals : Begin(c, "inv_mut", x)
+EvalInvDel(c) == /\ pc.m = "idle"
+                 /\ Begin(c, "inv_del", 0)
+EvalInvThrow(c) == /\ pc.m = "idle"
+                   /\ \E x \in Vals : Begin(c, "inv_throw", x)
+EvalInvIndirect(c) == /\ pc.m = "idle"
+                      /\ \E x \in Vals : Begin(c, "inv_ieval", x)
+EvalInvLoop(c) == /\ pc.m = "idle"
+                  /\ \E x \in Vals : Begin(c, "inv_loop", x)
 HostStep(c, kd, x) ==
   /\ pc.m = "idle" /\ kd \in MCKinds
   /\ ctx' = [ctx EXCEPT ![c] = RunEvent(ctx[c], kd, x).st]
@@ -244,14 +310,18 @@ Next == \/ Effect \/ Exit
              \/ EvalMutObjProto(c) \/ EvalMutMath(c) \/ EvalMutArrProto(c) \/ EvalMutStrCtor(c) \/ EvalMutErrProto(c)
              \/ EvalThrow(c) \/ EvalLoop(c) \/ EvalRecurse(c) \/ EvalSyntax(c)
              \/ EvalIndirect(c) \/ EvalIndirectLoop(c) \/ EvalNewFunction(c) \/ EvalRead(c) \/ EvalReenter(c)
+             \/ EvalRedecl(c) \/ EvalRedeclF(c) \/ EvalRedeclOr(c) \/ EvalRedeclDead(c) \/ EvalRedeclIndirect(c)
+             \/ EvalRedeclNewFn(c) \/ EvalRedeclNewFnInit(c) \/ EvalRedeclThrow(c)
+             \/ EvalInvMut(c) \/ EvalInvDel(c) \/ EvalInvThrow(c) \/ EvalInvIndirect(c) \/ EvalInvLoop(c)
              \/ Set(c) \/ Get(c)
 Spec == Init /\ [][Next]_cmvars
 Bound == evn < MAXN \/ (evn = MAXN /\ pc.m = "idle")      \* CONSTRAINT: all histories up to MAXN events
 
 \* ---------------- properties TLC checks ---------------------------------------------------------
 TypeOK ==
-  /\ \A c \in Ctxs : /\ \A nm \in Names : ctx[c].globals[nm].k \in {"absent", "num", "fn"}
+  /\ \A c \in Ctxs : /\ \A nm \in Names : ctx[c].globals[nm].k \in {"absent", "undef", "num", "fn"}
                      /\ \A j \in 1..NT : ctx[c].touched[j] \in Nat
+                     /\ ctx[c].inv \in Nat
                      /\ ctx[c].limits = LimitsOf(c)
   /\ pc.m \in {"idle", "run"} /\ evn \in 0..(MAXN + 1) /\ actor \in 0..NC
 \* the current-VM pointer is clear after every exit (and belongs to the running eval only)
@@ -277,6 +347,11 @@ EffectsPersist == [][(pc.m = "run" /\ pc'.m = "idle") => Core(ctx'[pc.c]) = Core
 NestingBalanced == [][(pc.m = "run" /\ pc'.m = "idle") => ctx[pc.c].depth = 1]_cmvars
 \* the sub-steps of an eval add up to the atomic meaning the trace specification uses
 AtomicAgrees == [][(pc.m = "run" /\ pc'.m = "idle") => ctx'[pc.c] = RunEvent(pc.start, pc.kind, pc.x).st]_cmvars
+\* a re-declaration (any form, also one that ends in an error) never changes a name that exists already, and a
+\* declaration inside a Function body never touches the globals at all
+RedeclKeeps == [][(pc.m = "run" /\ pc'.m = "idle" /\ pc.kind \in RedeclKinds) =>
+                    \A nm \in Names : /\ pc.start.globals[nm].k \in {"num", "fn"} => ctx'[pc.c].globals[nm] = pc.start.globals[nm]
+                                      /\ pc.kind \in {"redecl_newfn", "redecl_newfn_init"} => ctx'[pc.c].globals[nm] = pc.start.globals[nm]]_cmvars
 \* a syntax error has no effect at all
 SyntaxNoEffect == [][last' = "syntax" /\ evn' = evn + 1 => ctx' = ctx]_cmvars
 =============================================================================
